@@ -95,7 +95,9 @@ def worker(kp, job):
     try:
         doc, errs = kp.loads(text)
     except Exception as e:
-        return {'records': [engine.rec('loads', impl='raise:' + type(e).__name__, req=('import', [C1.join(bad), text]), key=text)]}
+        # the generated score obeys the spine-path rules: it is its own widest excerpt, and it must (re-)import
+        v_ = [('re-import', f'a well-formed generated score (the excerpt 1..last of itself) does not import: {type(e).__name__}', {'text': text})]
+        return {'records': [engine.rec('loads', impl='raise:' + type(e).__name__, req=('import', [C1.join(bad), text]), key=text, viol=v_)]}
     M = len(doc.measure_start_tree_stages)
     full = docs.impl_dumps(kp, doc, spine_types=['**kern'])
     _, full_notes = wellformed_and_signatures(full[3:]) if full.startswith('ok:') else (None, [])
